@@ -30,7 +30,7 @@ def corpus():
 
 def generate(rng, tier):
     yield from gc.directed(3 if tier == "quick" else 5)
-    n = 5000 if tier == "quick" else 130000
+    n = 8000 if tier == "quick" else 130000
     for i in range(n):
         c = gc.gen(rng, depth=rng.choice([2, 3, 3, 4]), p_raise=rng.choice([0.05, 0.1]), p_cancel=rng.choice([0.15, 0.3]))
         yield c
